@@ -236,7 +236,7 @@ def unbound_names(prog: list[str]) -> list[str]:
     return out
 
 
-def dead_if_in_text(prog: list[str]) -> bool:
+def dead_if_in_text(prog: list[str], scoped: bool = False) -> bool:
     """Is there an `if` in the printed program none of whose result variables is read outside the statement?
     (the result variables are the left-hand sides of the assignments closing its two branches)"""
     def depth(ln):
@@ -266,6 +266,17 @@ def dead_if_in_text(prog: list[str]) -> bool:
             out += rest.split(",")
         return [x.strip("()") for x in out]
 
+    def defs(ln):
+        if not ln.startswith("L"):
+            return []
+        body = ln.split(" ", 1)[1]
+        kind, _, rest = body.partition(" ")
+        if kind in ("call", "op", "assign"):
+            return rest.partition(" = ")[0].split(",")
+        if kind in ("for", "forbreak"):
+            return [rest.split(" ")[0]]
+        return []
+
     for i, ln in enumerate(prog):
         if not (ln.startswith("L") and ln.split(" ")[1] == "if"):
             continue
@@ -276,8 +287,38 @@ def dead_if_in_text(prog: list[str]) -> bool:
             if depth(prog[j]) == d + 1 and prog[j].split(" ")[1] == "assign":
                 results.add(prog[j].split(" ", 2)[2].partition(" = ")[0])
             j += 1
-        outside = prog[:i] + prog[j:]
-        if results and not any(r in reads(x) for x in outside for r in results):
+        if scoped:
+            # only the statements that can execute after the `if`: the rest of its block and of the enclosing blocks,
+            # not the `else` blocks of enclosing `if`s (sibling scopes), not other functions
+            outside, cur, k = [], d, j
+            while k < len(prog) and prog[k].startswith("L"):
+                dk = depth(prog[k])
+                if dk < cur and prog[k] == f"L{dk} else":
+                    k += 1
+                    while k < len(prog) and prog[k].startswith("L") and depth(prog[k]) > dk:
+                        k += 1
+                    cur = dk
+                    continue
+                cur = min(cur, dk)
+                outside.append(prog[k])
+                k += 1
+        else:
+            outside = prog[:i] + prog[j:]
+        if scoped:
+            # a result is live when a later statement reads it before it is assigned again; an assignment inside a nested
+            # block (conditional, or a loop body that may not run) only hides the result until that block ends
+            live, kill = False, {}
+            for x in outside:
+                dx = depth(x)
+                kill = {r: dk for r, dk in kill.items() if dx >= dk}
+                if any(r in reads(x) and r not in kill for r in results):
+                    live = True
+                    break
+                for r in results & set(defs(x)):
+                    kill[r] = dx if dx > d else 0
+            if results and not live:
+                return True
+        elif results and not any(r in reads(x) for x in outside for r in results):
             return True
     return False
 
@@ -292,6 +333,10 @@ def classify(stage: str, case: dict, opts: dict, mprog: list[str] | None, mres: 
         return "C13-LOOP-BREAK"
     if mprog and "A subgraph for a test do not have any output variable" in detail and dead_if_in_text(mprog):
         return "C13-DEAD-IF"
+    if mprog and "A subgraph for a test do not have any output variable" in detail and dead_if_in_text(mprog, scoped=True) \
+            and any(len(ks) > 1 for ks in GEN.scope_defs(case["proto"]).values()):
+        # `_names_read` is one flat set of ONNX names: a dead If whose result name is read in a sibling scope is kept
+        return "C13-READ-SCOPE"
     return None
 
 
@@ -592,7 +637,7 @@ def _oracle(ctx, case, opts, src, exc, mprog, mres, iprog=None):
         st["roundtrip_ok"] += 1
         st["roundtrip_ok_" + L.opts_str(opts)] += 1
         for fl in case["meta"].get("flags", []):
-            if fl.startswith(("loop_", "for", "while", "if", "init", "forced_loop")):
+            if fl.startswith(("loop_", "for", "while", "if", "init", "forced_loop", "sibling_")):
                 st["roundtrip_ok_with_" + fl] += 1
     finally:
         L.release(modname)
@@ -607,11 +652,38 @@ def gen_direct(rng, n: int, refusal_every: int = 8) -> list[dict]:
         scheme = rng.choice(["clean", "clean", "odd", "odd", "odd", "collide"])
         refusal = GEN.REFUSALS[(i // refusal_every) % len(GEN.REFUSALS)] if i % refusal_every == refusal_every - 1 else None
         special = rng.random() < 0.2
-        force_loop = None if refusal else {3: "identity", 5: "direct"}.get(i % 8)
+        force_loop = None if refusal else {3: "identity", 5: "direct", 1: "constfalse", 6: "condpass"}.get(i % 8)
         mg = GEN.ModelGen(rng, scheme=scheme, special=special, refusal=refusal, size=rng.choice([2, 4, 6]),
                           depth=2, allow_loops=True, force_loop=force_loop)  # fmt: skip
         m = mg.model()
         meta = {"scheme": scheme, "flags": sorted(mg.flags), "refusal": refusal, "src": "direct"}
+        cases.append(case_of_model(m, GEN.feeds_for(m, rng, 3), meta))
+    return cases
+
+
+def gen_sibling(rng, n: int) -> list[dict]:
+    """Models in which sibling scopes define the same ONNX names (the two branches of an If, bodies of consecutive
+    Loops/Ifs): generated models with at least two subgraphs, subgraph-local names renamed onto an earlier sibling's."""
+    cases = []
+    tries = 0
+    while len(cases) < n and tries < 40 * n:
+        tries += 1
+        scheme = rng.choice(["clean", "odd", "collide"])
+        mg = GEN.ModelGen(rng, scheme=scheme, special=False, refusal=None, size=rng.choice([4, 6, 8]), depth=2, allow_loops=True)
+        m = mg.model()
+        if not ({"if"} & mg.flags):
+            continue
+        plain = len(cases) % 4 == 3  # every 4th case has no constant-vs-other name clash (C13-INLINE-SCOPE class, fixed by e0cdb9e) by construction
+        st = GEN.reuse_sibling_names(m, rng, plain=plain)
+        if not st["reused"] or (plain and GEN.const_scope_clash(m)) or (not plain and not st["const_vs_other"]):
+            continue
+        try:
+            onnx.checker.check_model(m, full_check=False)
+        except Exception:  # noqa: BLE001
+            raise core.Infra("sibling-name reuse produced an invalid model")
+        flags = sorted(mg.flags | {"sibling_reuse"} | ({"sibling_reuse_const"} if st["const_vs_other"] else set())
+                       | ({"sibling_reuse_plain"} if not GEN.const_scope_clash(m) else set()))
+        meta = {"scheme": scheme, "flags": flags, "refusal": None, "src": "sibling"}
         cases.append(case_of_model(m, GEN.feeds_for(m, rng, 3), meta))
     return cases
 
@@ -1014,6 +1086,15 @@ def witnesses() -> list[tuple[str, dict, dict]]:
         [f3], [y3],
     )  # fmt: skip
     out.append(("C13-DEAD-IF-DIRECT", case_of_model(m, [{"x": X}], {"refusal": None, "flags": ["witness"]}), dict(base)))
+    # C13-INLINE-SCOPE (fixed by e0cdb9e; must-pass regression case): `t` is an inlinable Constant in the then-branch and a
+    # computed value in the else-branch
+    m = GEN.sibling_witness()
+    feeds = [{"c": np.array(b), "x": np.array(3.0, dtype=np.float32)} for b in (True, False)]
+    out.append(("C13-INLINE-SCOPE", case_of_model(m, feeds, {"refusal": None, "flags": ["witness"]}), dict(base, inline_const=True)))
+    # C13-READ-SCOPE (open): a dead If whose result name is read in the sibling branch is not dropped
+    m = GEN.read_scope_witness()
+    feeds = [{"c": np.array(b), "x": X} for b in (True, False)]
+    out.append(("C13-READ-SCOPE", case_of_model(m, feeds, {"refusal": None, "flags": ["witness"]}), dict(base)))
     return out
 
 
@@ -1049,6 +1130,101 @@ def cleanup_stream(ctx: Ctx, rng, n: int) -> None:
         ctx.tie_broken.append(({"kind": "cleanup", "name": ""}, None, "cleanup(''): model does not refuse"))
 
 
+def literal_stream(ctx: Ctx, rng, n: int) -> None:
+    """Value rendering of inlined INT64 constants (theorem `inline_const_repr_int64`): the real `_get_const_repr` on
+    generated INT64 tensors against the Lean `constReprI64` (exact text / refusal), and the Lean reader `parse`
+    against Python's own reading of the text (`ast.literal_eval`; the converter evaluates literals with Python) — on the
+    exporter's texts and on mutants of them.  The round trip itself (text reads back as the tensor's values) is checked
+    on the real side as well: a difference there is a property failure, not a tie failure."""
+    import ast as _ast
+    import re as _re
+
+    from onnxscript.backend.onnx_export import _get_const_repr
+
+    lim = [0, 1, -1, 2**63 - 1, -(2**63), 2**31, -(2**31) - 1, 10, -10, 100, 9, -9, 12345678901234]
+    shapes = [[], [1], [2], [3], [4], [5], [0], [1, 1], [2, 2], [0, 3], [7]]
+    jobs = []
+    for k in range(n):
+        dims = shapes[k % len(shapes)] if k < 4 * len(shapes) else rng.choice(shapes)
+        cnt = int(np.prod(dims)) if dims else 1
+        vals = [rng.choice(lim) if rng.random() < 0.5 else rng.randint(-(2**63), 2**63 - 1) >> rng.choice([0, 20, 40, 56, 60])
+                for _ in range(cnt)]
+        jobs.append((dims, vals))
+    outs = ctx.drv.ask([f"litconst {len(d)} {' '.join(map(str, d))} {len(v)} {' '.join(map(str, v))}".replace("  ", " ")
+                        for d, v in jobs])
+    texts = []
+    for (dims, vals), mo in zip(jobs, outs):
+        ctx.stats["literal_evals"] += 1
+        case = {"kind": "literal", "dims": dims, "vals": [str(v) for v in vals]}
+        t = H.make_tensor("t", TP.INT64, dims, vals)
+        node = H.make_node("Constant", [], ["c"], value=t)
+        real = _get_const_repr(node)
+        mt = None if mo == "none" else L.unhx(mo)
+        if mo == "bad-op" or mt != real:
+            ctx.tie_broken.append((case, None, f"_get_const_repr(INT64 {dims} {vals}): model {mt!r} impl {real!r}"))
+            continue
+        if real is None:
+            ctx.stats["literal_not_inlined"] += 1
+            continue
+        ctx.stats["literal_scalar" if not dims else f"literal_list_{dims[0]}"] += 1
+        if any(v < 0 for v in vals):
+            ctx.stats["literal_negative"] += 1
+        if any(v in (2**63 - 1, -(2**63)) for v in vals):
+            ctx.stats["literal_int64_limit"] += 1
+        want = vals[0] if not dims else vals
+        try:
+            back = _ast.literal_eval(real)
+        except Exception as e:  # noqa: BLE001
+            back = "ERR:" + type(e).__name__
+        if back != want or (dims and not all(type(x) is int for x in back)) or (not dims and type(back) is not int):
+            ctx.failures.append((case, None, "literal", f"_get_const_repr prints {real!r} for INT64 {dims} {vals}; Python reads it back as {back!r}"))
+        texts.append((real, want))
+    # the reader: Lean `parse` vs Python on the texts and on mutants
+    mut = []
+    for text, want in texts:
+        mut.append(text)
+        for _ in range(3):
+            i = rng.randrange(len(text) + 1)
+            kind = rng.choice(["del", "ins", "nosp", "lead0", "plus", "us", "dup"])
+            if kind == "del" and text:
+                m = text[:i] + text[i + 1:]
+            elif kind == "ins":
+                m = text[:i] + rng.choice(" -,[]0_.") + text[i:]
+            elif kind == "nosp":
+                m = text.replace(", ", ",", 1)
+            elif kind == "lead0":
+                m = _re.sub(r"(\d+)", lambda mm: "0" + mm.group(1), text, count=1)
+            elif kind == "plus":
+                m = "+" + text
+            elif kind == "us":
+                m = _re.sub(r"(\d)(\d)", r"\1_\2", text, count=1)
+            else:
+                m = text + text
+            mut.append(m)
+    mut = list(dict.fromkeys(mut))
+    outs = ctx.drv.ask([f"litparse {L.hx(m)}" for m in mut])
+    for m, mo in zip(mut, outs):
+        ctx.stats["literal_parse_evals"] += 1
+        case = {"kind": "literal-parse", "text": m}
+        try:
+            pv = _ast.literal_eval(m)
+            ok = (type(pv) is int) or (type(pv) is list and all(type(x) is int for x in pv))
+        except Exception:  # noqa: BLE001
+            pv, ok = None, False
+        if mo == "none":
+            ctx.stats["literal_parse_model_rejects" + ("_python_accepts" if ok else "")] += 1
+            continue
+        tok = mo.split()
+        mv = int(tok[1]) if tok[0] == "S" else [int(x) for x in tok[2:]]
+        if ok and pv == mv and (type(pv) is list) == (tok[0] == "L"):
+            ctx.stats["literal_parse_agree"] += 1
+        elif not ok and pv is None and _re.search(r"(?<![0-9_])0[0-9_]", m):
+            # Python's grammar forbids leading zeros (SyntaxError — a refusal, not another value); `parse` accepts them
+            ctx.stats["literal_parse_leading_zero"] += 1
+        else:
+            ctx.tie_broken.append((case, None, f"reading of {m!r}: model {mo!r} python {pv!r}"))
+
+
 # --------------------------------------------------------------------------- main
 
 
@@ -1067,8 +1243,9 @@ def main(run: core.Run) -> None:
     run.assumptions += [
         "A-py: CPython's ast/compile and `set` iteration order (the order of _names_used_in_function is an input of the model)",
         "A-op: onnxruntime CPU (optimisations off) is the runtime on which original and round-tripped models are compared",
-        "rendering of values (float repr, make_tensor text) is not modelled in Lean: literals are opaque tokens whose "
-        "parsed-back value is compared with the original tensor in the harness (float32 bit patterns, never text)",
+        "rendering of FLOAT values (float repr) and make_tensor text is not modelled in Lean: in the exporter model literals "
+        "are opaque tokens whose parsed-back value is compared with the original tensor in the harness (float32 bit patterns, "
+        "never text); INT64 rendering is modelled (OV.C13V.render/parse) and tied to _get_const_repr and to Python's reading",
         "names are ASCII (str.isalpha/isalnum over non-ASCII is outside the model); model-local functions "
         "(ModelProto.functions) and attribute defaults (attribute_proto) are not generated",
         "output *names* of the round-tripped graph are not required to be preserved (counted in the histogram); "
@@ -1121,6 +1298,7 @@ def _main(run: core.Run, ctx: Ctx, audit: dict) -> None:
 
     type_stream(ctx, rng, run.size(40, 400))
     table_stream(ctx)
+    literal_stream(ctx, rng, run.size(300, 5000))
 
     # 2. witnesses of the known findings, on the real code
     open_ids = {f["id"] for f in run.open_findings()}
@@ -1143,7 +1321,8 @@ def _main(run: core.Run, ctx: Ctx, audit: dict) -> None:
     acases = gen_attr_functions(rng, n_attr)
     shcases = gen_shapes(rng, run.size(20, 200) * scale)
     lfcases = gen_local_functions(rng, run.size(6, 60) * scale)
-    allcases = cases + scases + acases + shcases + lfcases
+    sbcases = gen_sibling(rng, run.size(16, 200) * scale)
+    allcases = cases + scases + acases + shcases + lfcases + sbcases
     for c in allcases[:3] + scases[:2]:
         run.sample({"kind": c["kind"], "meta": {k: v for k, v in c["meta"].items() if k != "src"},
                     "text": onnx.printer.to_text(c["proto"])[:600]})  # fmt: skip
@@ -1228,11 +1407,17 @@ def verdict(run: core.Run, ctx: Ctx, audit: dict, ncases: int) -> None:
     required = ["stmt_call", "stmt_op", "stmt_assign", "stmt_if", "stmt_else", "stmt_for", "stmt_while", "stmt_forbreak",
                 "stmt_wrap", "stmt_deco", "stmt_sig", "stmt_return", "err_KeyError", "err_NotImplementedError",
                 "err_RuntimeError", "err_AssertionError", "err_IndexError", "fragment_cases", "fragment_reread_ok",
-                "type_evals", "table_entries", "cleanup_evals", "import_lines_compared", "branch_attr_conflict_renamed", "branch_unique_suffix",
+                "type_evals", "table_entries", "cleanup_evals", "literal_evals", "literal_scalar", "literal_list_1", "literal_list_4",
+                "literal_not_inlined", "literal_negative", "literal_int64_limit", "literal_parse_agree",
+                "literal_parse_model_rejects", "literal_parse_leading_zero", "import_lines_compared", "branch_attr_conflict_renamed", "branch_unique_suffix",
                 "roundtrip_ok_with_if", "roundtrip_ok_with_loop_for", "roundtrip_ok_with_loop_while",
                 "roundtrip_ok_with_init", "flag_loop_forcond", "flag_shapes", "flag_local_functions", "flag_attr_fn", "flag_loop_cond_identity_of_computed",
                 "flag_local_order_given", "flag_local_order_reversed", "flag_forced_loop_identity", "flag_forced_loop_direct",
                 "roundtrip_ok_with_forced_loop_identity",
+                "flag_forced_loop_condpass", "flag_loop_passthrough_identity", "flag_forced_loop_constfalse", "flag_loop_cond_const_false", "roundtrip_ok_with_forced_loop_constfalse",
+                "flag_sibling_reuse", "flag_sibling_reuse_const", "flag_sibling_reuse_plain",
+                "roundtrip_ok_with_sibling_reuse", "roundtrip_ok_with_sibling_reuse_const",
+                "roundtrip_ok_with_sibling_reuse_plain",
                 "refused_as_expected"]  # fmt: skip
     missing = [k for k in required if not st[k]]
     run.coverage["required_counters"] = {k: st[k] for k in required}
